@@ -543,6 +543,16 @@ def g_special(ctx, rng, i):
         _try(Q.intersect, g.Line(g.Point(*(c + [0, 0, 2 * r])), g.Point(*(c + [1, 0, 2 * r]))))  # misses
         _try(Q.intersect, g.Line(g.Point(*c), g.Point(*(c + gen.nonzero_vec(rng, 3, 3)))))  # through the centre
         _try(lambda: Q.dual)
+        # lines that are the result of other library calls (rotated forth and back, translated: coordinates carry rounding noise, entries
+        # that are exactly zero for a typed-in line are 1e-17 here), in particular axis-parallel ones
+        rot = g.rotation(float(rng.uniform(-3, 3)), axis=g.Point(*gen.nonzero_vec(rng, 3, 2).tolist()))
+        for a_, b_ in ((c + [0.5, 0.25, -3], c + [0.5, 0.25, 3]), (c + [-5, 0.5, 0.25], c + [5, 0.5, 0.25]), (P[0][:3], P[1][:3])):
+            if np.linalg.norm(np.asarray(a_) - np.asarray(b_)) < 1e-9:
+                continue
+            ln = g.Line(g.Point(*a_), g.Point(*b_))
+            noisy = _try(lambda: rot.inverse() * (rot * ln))
+            if noisy is not None:
+                _try(Q.intersect, noisy)
     else:
         v = gen.coords(rng, (3,), 3, "int").astype(float)
         d = gen.nonzero_vec(rng, 3, 3).astype(float)
